@@ -42,9 +42,16 @@ var machineExprs = []string{"a = 'x'", "/l[k = current()/../x]/v", "string-lengt
 	"/l[k = /l3[j = current()/../x]/r]/v",
 	// a leafref is followed (two more kinds of data-tree callback that can fail)
 	"deref(current()/../r)/../v = 'x'",
+	// two runs that fail inside the engine itself (not in the data tree), each with a text of its own:
+	// the error a run reports is part of its result
+	"count('x') = 1", "count(7) = 1",
 	// two expressions without location paths: they can also be run through the other context
 	// constructor, NewCtxFromMach (operation runmach)
 	"concat('left-', 'hold') = 'left-hold'", "string-length('abcdef') * 2 + 1"}
+
+// coreMachines: machines 0..6 take part in every generic scenario and history; the later ones (added
+// for particular questions) in their own scenarios, one generic tick scenario each and the histories.
+const coreMachines = 7
 
 // customMachine is the index of the machine that calls a registered custom (plugin) function.
 const customMachine = 4
@@ -355,6 +362,11 @@ func run(c *engine.Ctx) {
 		tb = 2
 	}
 	for m := range machineExprs {
+		if m >= coreMachines {
+			// (the later machines have scenarios of their own below)
+			scenarios = append(scenarios, scenario{Threads: [][]op{{{Kind: "run", Arg: m}}, {{Kind: "run", Arg: m}}}, Tick: true, Bound: 1})
+			continue
+		}
 		scenarios = append(scenarios, scenario{Threads: [][]op{{{Kind: "run", Arg: m}}, {{Kind: "run", Arg: m}}}, Tick: true, Bound: tb})
 		scenarios = append(scenarios, scenario{Threads: [][]op{{{Kind: "run", Arg: m}}, {{Kind: "run", Arg: m, Ctx: 1}}}, Tick: true, Bound: tb})
 		scenarios = append(scenarios, scenario{Threads: [][]op{{{Kind: "run", Arg: m}}, {{Kind: "runfail", Arg: m}}}, Tick: true, Bound: tb})
@@ -366,6 +378,10 @@ func run(c *engine.Ctx) {
 	}
 	// contexts built by NewCtxFromMach (no data tree) next to each other and next to contexts built from
 	// a current node: every context has its own evaluation stack
+	ef := []int{len(machineExprs) - 4, len(machineExprs) - 3}
+	scenarios = append(scenarios, scenario{Threads: [][]op{{{Kind: "run", Arg: ef[0]}}, {{Kind: "run", Arg: ef[1]}}}, Tick: true, Bound: tb})
+	scenarios = append(scenarios, scenario{Threads: [][]op{{{Kind: "run", Arg: ef[0]}}, {{Kind: "run", Arg: ef[1]}}, {{Kind: "run", Arg: ef[0], Ctx: 1}}}, Tick: true, Bound: 1})
+	scenarios = append(scenarios, scenario{Threads: [][]op{{{Kind: "run", Arg: ef[0]}, {Kind: "run", Arg: 0}}, {{Kind: "run", Arg: ef[1]}}}, Bound: bound})
 	pf := []int{len(machineExprs) - 2, len(machineExprs) - 1}
 	for _, a := range pf {
 		for _, b := range pf {
@@ -450,7 +466,11 @@ func historyAlphabet() []op {
 		a = append(a, op{Kind: "compile", Arg: i})
 	}
 	for i := range machineExprs {
-		a = append(a, op{Kind: "run", Arg: i}, op{Kind: "run", Arg: i, Ctx: 1})
+		a = append(a, op{Kind: "run", Arg: i})
+		if i < coreMachines {
+			// (the machines added for particular scenarios take part with one context position)
+			a = append(a, op{Kind: "run", Arg: i, Ctx: 1})
+		}
 	}
 	a = append(a, op{Kind: "runfail", Arg: 0}, op{Kind: "runfail", Arg: 1}, op{Kind: "runfail", Arg: 3, Ctx: 1})
 	a = append(a, op{Kind: "runmach", Arg: len(machineExprs) - 2}, op{Kind: "runmach", Arg: len(machineExprs) - 1})
